@@ -104,4 +104,14 @@ def rtX : Bytes :=
    101, 115, 50, 58, 255, 254, 55, 58, 112, 114, 105, 118, 97, 116, 101, 105, 49, 101, 50, 58, 195,
    169, 108, 105, 45, 51, 101, 100, 101, 101, 101, 49, 58, 122, 49, 58, 255, 101]
 
+/-- `read_stream(x).dump()` as one function, `none` = some step raised (used to state counterexamples) -/
+def readDump (env : Env) (x : Bytes) (v : Bool) : Option Bytes :=
+  match read env x v with
+  | .ok t => (dump env t v).toOption
+  | .error _ => none
+
+theorem readDump_of {env : Env} {x y : Bytes} {v : Bool} {t : List (PyVal × PyVal)}
+    (hr : read env x v = .ok t) (hd : dump env t v = .ok y) : readDump env x v = some y := by
+  simp [readDump, hr, hd, Except.toOption]
+
 end Torf.ReadStream
